@@ -596,7 +596,7 @@ func vp8TablesLine() string {
 }
 
 func suiteVP8(rep *Report) error {
-	rep.Rule = "frames: (a) VP8 payloads of webp.Encode lossy outputs over colour class x size (1x1 … 100x20, 320x320) x Quality {0,20,50,75,90,100} x Method 0..6 x Segments 1..4 x Partitions 0..3 x FilterStrength {0,20,60,100} x FilterSharpness {0,3,7} x FilterType {0,1} x SNS {0,50,100} (quality x method walked, the rest drawn); (b) lossy testdata files and corpus/vp8/*.hex; (c) frames of a random VP8 writer (segment maps with absolute/delta quantiser and filter values, both filters with deltas and any sharpness, 1/2/4/8 partitions, skip flags, all 5/10/4 intra modes uniformly, arbitrary tokens incl. categories 3-6 and zero runs, probability updates); (d) mutations of (a)-(c): bit flips, byte sets, truncations, fills, appended bytes, first-partition-size edits. Each frame is decoded by lossy.DecodeFrame (planes cropped as the public API does) and by the Lean spec decoder Webp.Spec.VP8.decode; lines (ok w h plane digests | err) are compared: ok-vs-err and planes; (e) lossy+alpha encoder outputs: webp.Decode NRGBA pixels vs the spec's fancy upsampling + YUV->RGB (op vp8nrgba) of the same VP8 payload with Go's decoded alpha plane; (f) constant tables Go vs Lean (op vp8tables). non-trivial = the spec decoder got past the 10-byte frame header; distinct = FNV of the payload"
+	rep.Rule = "frames: (a) VP8 payloads of webp.Encode lossy outputs over colour class x size (1x1 … 100x20, 320x320, and a 512x512 noise picture at quality 95 with 2 token partitions of > 64 KiB each; thorough: also 4 and 8 partitions at quality 100) x Quality {0,20,50,75,90,100} x Method 0..6 x Segments 1..4 x Partitions 0..3 x FilterStrength {0,20,60,100} x FilterSharpness {0,3,7} x FilterType {0,1} x SNS {0,50,100} (quality x method walked, the rest drawn); (b) lossy testdata files and corpus/vp8/*.hex; (c) frames of a random VP8 writer (segment maps with absolute/delta quantiser and filter values, both filters with deltas and any sharpness, 1/2/4/8 partitions - 1 frame in 40 (thorough: 300) of those with several partitions has a NON-final partition padded with unread bytes to a declared size of 0x010000 … 0x020001, so that the 24-bit size entries use their third byte -, skip flags, all 5/10/4 intra modes uniformly, arbitrary tokens incl. categories 3-6 and zero runs, probability updates); (d) mutations of (a)-(c): bit flips, byte sets, truncations, fills, appended bytes, first-partition-size edits. Each frame is decoded by lossy.DecodeFrame (planes cropped as the public API does) and by the Lean spec decoder Webp.Spec.VP8.decode; lines (ok w h plane digests | err) are compared: ok-vs-err and planes; (e) lossy+alpha encoder outputs: webp.Decode NRGBA pixels vs the spec's fancy upsampling + YUV->RGB (op vp8nrgba) of the same VP8 payload with Go's decoded alpha plane; (f) constant tables Go vs Lean (op vp8tables); every Go decode runs under a 20 s deadline: a call that does not return is a finding (C05 hang:DecodeFrame, and C04 when the spec decodes the frame) and ends the suite. non-trivial = the spec decoder got past the 10-byte frame header; distinct = FNV of the payload"
 	v := &vp8Run{rep: rep, kept: map[string][]Finding{}, totals: map[string]int{}, phase: map[string]float64{}}
 	finish := func() error {
 		rep.Extra["finding_totals"] = v.totals
@@ -850,7 +850,7 @@ func (v *vp8Run) nrgba(cases []vp8Case, files [][]byte) error {
 func replayVP8(in map[string]any) int {
 	hs, _ := in["hex"].(string)
 	data := unhx(hs)
-	g, pm := guard(func() string { return goVP8(data) })
+	g, pm := guardT(func() string { return goVP8(data) })
 	l, err := RunDriver([]string{"vp8 " + hs, "vp8info " + hs})
 	fmt.Printf("go:   %s %s\n", g, pm)
 	if err != nil {
@@ -859,7 +859,7 @@ func replayVP8(in map[string]any) int {
 	}
 	fmt.Printf("lean: %s\ninfo: %s\n", l[0], l[1])
 	gOK, lOK := strings.HasPrefix(g, "ok "), strings.HasPrefix(l[0], "ok ")
-	if g == "panic" || gOK != lOK || (gOK && l[0] != g) {
+	if g == "panic" || g == "hang" || gOK != lOK || (gOK && l[0] != g) {
 		return 1
 	}
 	return 0
